@@ -1,0 +1,13 @@
+//go:build verif
+
+// Contracts for package driver (the backend interface), checked by /verif/bin/govc.
+package driver
+
+// Backends are arbitrary: Get may fail or return any bytes (C10); the only effect of
+// Set/Delete visible to the transport is a write to the backing store (ghost storeWrites).
+//@ iface Conn.Get(c, key)
+//@   pure
+//@ iface Conn.Set(c, key, value)
+//@   assigns storeWrites
+//@ iface Conn.Delete(c, key)
+//@   assigns storeWrites
